@@ -86,7 +86,12 @@ class Run(object):
         for fid, h in known_hit.items():
             lines.append("KNOWN-FINDING: property=%s %s [%s; %d case(s) in this run]" % (
                 self.prop, h["entry"]["what"], fid, h["cases"]))
-        replay_dir = os.path.join(env.VERIF, "replays", self.prop)
+        replay_dir = os.path.join(os.environ.get("VERIF_REPLAY_DIR") or
+                                  os.path.join(env.VERIF, "replays"), self.prop)
+        if os.path.isdir(replay_dir):
+            for old in os.listdir(replay_dir):        # artefacts of earlier runs are stale
+                if old.endswith(".json"):
+                    os.unlink(os.path.join(replay_dir, old))
         n_viol = 0
         for k, f in violations:
             rec = dict(f)
